@@ -1,6 +1,7 @@
 import UtilModel.Core.LTSHash
 import UtilModel.Core.LTSComplete
 import UtilModel.CContainer.Props
+import UtilModel.CContainer.Quot
 /-!
 # CContainer — end-to-end transfer
 
@@ -20,10 +21,10 @@ theorem C15_accepted (cap fuel : Nat) (h : List CContainer.Obs)
 `complete_ccontainer`: every enabled internal event is in `cands s` and every enabled observable
 event is in `evsOf s o`.
 
-There is no `reject_sound_ccontainer` here: `rejectH_sound` needs `LawfulBEq St`, and the state
-equality the checker uses (`instBEqSt`, equality of `St.norm`: channel ids up to closed/open) is a
-deliberate quotient, not the real equality. The REJECT direction for this model needs a version of
-`rejectH_sound` for an equivalence that is a bisimulation on well-formed states. -/
+`reject_sound_ccontainer`: the state equality the checker uses (`instBEqSt`, equality of `St.norm`:
+channel ids up to closed/open) is a deliberate quotient, not the real equality, so `rejectH_sound` does
+not apply; `CContainer/Quot.lean` proves that it is an equivalence compatible with the hash and a
+bisimulation on reachable states, which is what `rejectH_sound_quot` needs. -/
 
 theorem CContainer.mem_internalCands (n t : Nat) (e : CContainer.Ev) (ht : t < n)
     (he : e ∈ [CContainer.Ev.opCS t, .waitCS t, .wakeCS t, .ctxTake t, .errTake t]) :
@@ -48,4 +49,17 @@ theorem complete_ccontainer : CContainer.model.Complete := by
       have hlt := (List.getElem?_eq_some_iff.mp hth).1
       refine CContainer.mem_internalCands _ _ _ hlt ?_
       simp
+
+theorem quotok_ccontainer : CContainer.model.QuotOK := CContainer.quotok
+
+/-- **A REJECT of the CContainer correspondence is about the model**: when the driver's run fails at
+an observable without having hit the exploration bounds, no run of the model projects to the
+recorded history. -/
+theorem reject_sound_ccontainer (cap fuel : Nat) (h : List CContainer.Obs) (i : Nat)
+    (hfail : (CContainer.model.accRunH cap fuel [CContainer.model.init] h 0 false 1).failedAt = some i)
+    (htr : (CContainer.model.accRunH cap fuel [CContainer.model.init] h 0 false 1).truncated = false) :
+    ¬ ∃ es s, CContainer.model.run CContainer.model.init es = some s ∧
+      es.filterMap CContainer.model.obs = h :=
+  rejectH_sound_quot CContainer.model complete_ccontainer quotok_ccontainer cap fuel h i hfail htr
+
 end UtilModel
